@@ -4,7 +4,7 @@ P: every three-valued operator is monotone w.r.t. the information order (U below
    argument and total on total arguments; n-ary operators equal the fold of their own binary case for
    every arity (fold induction), so monotonicity/totality lift to all arities (background lemma:
    a fold of a monotone step is monotone); circuit level (c01_eval): totality of both evaluation loops under a total assignment, and
-   SOUNDNESS of evaluate_full_circuit under an arbitrary PARTIAL assignment: every returned value is Undefined or equals den under an
+   SOUNDNESS of evaluate_full_circuit AND evaluate_circuit under an arbitrary PARTIAL assignment: every returned value is Undefined or equals den under an
    arbitrary completion of the assignment (loop invariant over the top_sort contract, fold invariant "acc = U or acc = Boolean fold").
 B: all 3^n partial assignments x all completions on enumerated circuits (vlib/bounded/C15.py)."""
 import z3
@@ -133,5 +133,5 @@ def run(rep):
     run_bounded(rep, 'C15', quick)
     rep.extra['explanation'] = ('Per-operator Kleene monotonicity and totality are proved from the real tables for all argument values; n-ary '
                                 'operators are proved to be folds of their binary case for every arity; at circuit level totality (both loops) and soundness of '
-                                'evaluate_full_circuit under every partial assignment and every completion are proved by loop invariants (c01_eval); '
-                                'monotonicity in the assignment and the stack-based evaluator under partial assignments: bounded stand-in.')
+                                'evaluate_full_circuit and evaluate_circuit under every partial assignment and every completion are proved by loop invariants (c01_eval); '
+                                'monotonicity in the assignment at circuit level: bounded stand-in.')
